@@ -166,6 +166,10 @@ func ItemCollectionDeduplication(recCols ...*ItemCollection) ItemCollection {
 			} else {
 				continue
 			}
+			if len(testIt) == 0 {
+				// entries without an id can not be duplicates of one another
+				continue
+			}
 			for _, it := range rec {
 				if testIt.Equals(it.GetID(), false) {
 					// mark the element for removal
